@@ -247,6 +247,12 @@ def run(ctx):
             ck.ob('C18-c', 'R8.width', 'lib_hash_update', 'no-narrowing:%s' % config, True,
                   'update length reaches the backend without narrowing', fn.file, fn.line, config=config)
         if config == 'bundled-hash':
+            # ---- j  the piecewise feed of long updates: remainder and data position move together
+            from ..rules.consume import check_consume_loop
+            check_consume_loop(ck, prog, config, 'C18-j', fn, 'size',
+                               [('SHA1_Update', 2), ('sha256_update', 2), ('sha512_update', 2)],
+                               rule_name='R4.piece-loop',
+                               data_ops={'SHA1_Update': 1, 'sha256_update': 1, 'sha512_update': 1})
             # ---- b constants
             want = fips_tables()
             for name, vals in sorted(want.items()):
